@@ -3,7 +3,7 @@ import ast
 
 from sa.absval import AbsEval, Const, Kind
 from sa.expr import txt, match, atom, unawait, linear, lin_text, int_ordering, ordering
-from sa.model import AnalysisError
+from sa.model import AnalysisError, exc_is_subclass
 from .common import assume_from, describe, or_default
 from .seq import PV, definite_index_error, before, between, guards_matching, own_nodes
 
@@ -653,6 +653,30 @@ def upgrade_exit_state(A, fl, rule):
                 behaviour='polling answers only NOOP from then on: everything queued is '
                           'undeliverable until the heartbeat times the session out')
         lastu = v.last_write('self.upgraded')
+        # failure is harmless: while the handshake is in progress nothing may leave the region
+        # as a protocol error, because handle_request ends the *polling* session for those
+        if p.outcome == 'raise' and p.cls and \
+                exc_is_subclass(p.cls, 'EngineIOError', A.resolver.exc_parents) and \
+                not any(val == 'True' for _i, val in v.writes('self.upgraded')):
+            xi = [i for i, e in enumerate(v.ev) if e.kind in ('exc', 'raise')]
+            origin = '?'
+            if xi:
+                prev = [e for e in v.ev[:xi[-1] + 1] if e.kind == 'call']
+                if v.ev[xi[-1]].kind == 'raise':
+                    origin = 'raise'
+                elif prev:
+                    c = unawait(prev[-1].expr)
+                    origin = txt(c.func) if isinstance(c, ast.Call) else txt(c)
+                    origin = {'websocket_wait': 'ws.wait'}.get(origin, origin)
+            A.violated(rule + '.failure-harmless', '%s: a failed upgrade attempt leaves the '
+                       'polling session alive: no EngineIOError leaves the handshake'
+                       % fl['name'], A.site(up, v.node(xi[-1]) if xi else None),
+                       key='%s-handshake-kills-session:%s:%s' % (fl['name'], p.cls, origin),
+                       detail=['%s raised by %s escapes the upgrade request; handle_request '
+                               'treats it as a protocol error, closes the session and answers '
+                               '400' % (p.cls, origin)] + v.describe(70),
+                       behaviour='a probe that fails (peer gone, bad frame) destroys the '
+                                 'polling session it was trying to upgrade')
     A.floor(rule, '%s upgrade-region paths that set upgrading' % fl['name'], n, 6)
     A.sample({'rule': rule + '.exit-state', 'flavour': fl['name'], 'region_paths': len(ps),
               'paths_setting_upgrading': n})
